@@ -24,6 +24,9 @@ class StackFrame:
 class LoopFrame(StackFrame):
     def __init__(self, parent):
         super().__init__(parent)
+        # A loop doesn't start a new scope: the parameters of the enclosing
+        # routine are still the parameters inside the loop.
+        self.params = parent.params
         self._loop_var = {}
 
     def get_loop_var(self, index):
